@@ -16,6 +16,7 @@
 #include <iostream>
 #include <sstream>
 #include <sys/wait.h>
+#include <csignal>
 using namespace hsim;
 
 struct Obj { std::string kind; void* p; };
@@ -93,7 +94,14 @@ static void report_state(const char* tag) {
     }
 }
 
+static void on_alarm(int) {   // real-time watchdog: the runtime spins or is blocked in the kernel
+    emit("result hung");
+    flush_trace();
+    _exit(0);
+}
 static int run_program(const std::vector<std::string>& lines) {
+    signal(SIGALRM, on_alarm);
+    alarm(10);
     init();
     int nthreads = 0;
     for (auto& l : lines) {
